@@ -282,7 +282,7 @@ def classify_k1(rep: Rep, out, ctx, what):
         miss = np.nonzero((a < 0) & must.any(axis=1))[0]
         wrong = np.nonzero((a >= 0) & ~may[np.arange(len(a)), np.clip(a, 0, len(rep.site_frac) - 1)])[0]
         n_other += len(wrong)
-        for k in miss[:40]:
+        for k in miss[: c02.MAX_CLASSIFY]:
             s = int(np.argmax(must[k]))
             try:
                 grp = c02.site_group(rep.labels if isinstance(rep.arg, dict) else None, s, len(rep.site_frac))
